@@ -303,9 +303,23 @@ def Pipe.clearInterest (p : Pipe) : Pipe :=
   { p with fr := { p.fr with iR := false, iW := false, iH := false, iE := false },
            br := { p.br with iR := false, iW := false, iH := false, iE := false } }
 
-/-- one turn of the `while counter < MAX_LOOP_ITERATIONS` loop of `ready_inner`
-    (`none` = the loop breaks) -/
-def Sess.turn (s : Sess) : Option (Sess × Res) :=
+/-- `if <interest bit> { let r = handler(); if r != Continue { return r } }` -/
+def Sess.stepIf (c : Bool) (f : Sess → Sess × Res) (x : Sess × Res) : Sess × Res :=
+  if x.2 ≠ .cont ∨ ¬ c then x else f x.1
+
+def Sess.hupStep (t : Sess) : Sess × Res :=
+  let (p', r) := t.p.backendHup
+  ({ t with p := p' }, r)
+
+def Sess.frontErrStep (t : Sess) : Sess × Res := ({ t with p := t.p.clearInterest }, .close)
+
+def Sess.backErrStep (t : Sess) : Sess × Res :=
+  let (p', r) := t.p.backendHup
+  if r = .close then ({ t with p := p'.clearInterest }, .close) else ({ t with p := p' }, .cont)
+
+/-- the handler calls of one turn of the readiness loop, in the order of `ready_inner`
+    (the interests are sampled once, at the top of the turn) -/
+def Sess.turnBody (s : Sess) : Sess × Res :=
   let fi_r := s.p.fr.iR && s.p.fr.eR
   let fi_w := s.p.fr.iW && s.p.fr.eW
   let fi_e := s.p.fr.iE && s.p.fr.eE
@@ -313,23 +327,22 @@ def Sess.turn (s : Sess) : Option (Sess × Res) :=
   let bi_w := s.p.br.iW && s.p.br.eW
   let bi_h := s.p.br.iH && s.p.br.eH
   let bi_e := s.p.br.iE && s.p.br.eE
-  let fi_h := s.p.fr.iH && s.p.fr.eH
-  if ¬ (fi_r || fi_w || fi_e || fi_h) ∧ ¬ (bi_r || bi_w || bi_h || bi_e) then none
+  Sess.stepIf bi_e Sess.backErrStep
+    (Sess.stepIf fi_e Sess.frontErrStep
+      (Sess.stepIf bi_h Sess.hupStep
+        (Sess.stepIf fi_w Sess.doWritable
+          (Sess.stepIf bi_r Sess.doBackReadable
+            (Sess.stepIf bi_w Sess.doBackWritable
+              (Sess.stepIf fi_r Sess.doReadable (s, .cont)))))))
+
+/-- one turn of the `while counter < MAX_LOOP_ITERATIONS` loop of `ready_inner`
+    (`none` = the loop breaks) -/
+def Sess.turn (s : Sess) : Option (Sess × Res) :=
+  let fi := (s.p.fr.iR && s.p.fr.eR) || (s.p.fr.iW && s.p.fr.eW) || (s.p.fr.iE && s.p.fr.eE) || (s.p.fr.iH && s.p.fr.eH)
+  let bi := (s.p.br.iR && s.p.br.eR) || (s.p.br.iW && s.p.br.eW) || (s.p.br.iH && s.p.br.eH) || (s.p.br.iE && s.p.br.eE)
+  if ¬ fi ∧ ¬ bi then none
   else if s.p.br.eH ∧ s.p.fr.iW ∧ ¬ s.p.fr.eW then none
-  else
-    let step (c : Bool) (f : Sess → Sess × Res) (x : Sess × Res) : Sess × Res :=
-      if x.2 ≠ .cont ∨ ¬ c then x else f x.1
-    let x0 : Sess × Res := (s, .cont)
-    let x1 := step fi_r Sess.doReadable x0
-    let x2 := step bi_w Sess.doBackWritable x1
-    let x3 := step bi_r Sess.doBackReadable x2
-    let x4 := step fi_w Sess.doWritable x3
-    let x5 := step bi_h (fun t => let (p', r) := t.p.backendHup; ({ t with p := p' }, r)) x4
-    let x6 := step fi_e (fun t => ({ t with p := t.p.clearInterest }, .close)) x5
-    let x7 := step bi_e (fun t =>
-      let (p', r) := t.p.backendHup
-      if r = .close then ({ t with p := p'.clearInterest }, .close) else ({ t with p := p' }, .cont)) x6
-    some x7
+  else some s.turnBody
 
 def Sess.loop : Nat → Sess → Sess × Res
   | 0, s => (s, .loopCap)
@@ -371,5 +384,84 @@ def Sess.runWakes (s : Sess) : List (List Ev) → Sess × Res
     match (evs.foldl Sess.apply s).ready with
     | (s', .cont) => Sess.runWakes s' rest
     | (s', r) => (s', r)
+
+
+/-! ## whole sessions: proxy-protocol state, then the pipe -/
+
+/-- the pipe a TCP session starts after `ExpectProxyProtocol` upgraded: empty
+    buffers, the READABLE event carried over (`into_pipe` copies the front
+    readiness), the bytes the expect state left unread still in the kernel -/
+def Sess.afterExpect (cap : Nat) (unread : Bytes) : Sess :=
+  { p := { Pipe.new cap with fr := { eR := true } }, k := { cIn := unread } }
+
+/-- the bytes the client / the backend send in a batch of outside events -/
+def sentC : List Ev → Bytes
+  | [] => []
+  | .clientSend bs :: t => bs ++ sentC t
+  | _ :: t => sentC t
+
+def sentB : List Ev → Bytes
+  | [] => []
+  | .backendSend bs :: t => bs ++ sentB t
+  | _ :: t => sentB t
+
+/-- a send-mode session seen from the backend socket: the header phase over the
+    write schedule `wss`, then — only after `Upgrade` — the pipe over the
+    wake-up schedule `wakes`. Returns every byte the backend socket received. -/
+def sendSession (peer loc : SockAddr) (wss : List (List WRes)) (cap : Nat) (wakes : List (List Ev)) :
+    Bytes × Res :=
+  match (Send.new peer loc).run wss with
+  | (_, .upgrade, out) =>
+    let r := ({ p := Pipe.new cap } : Sess).runWakes wakes
+    (out ++ r.1.p.wroteB, r.2)
+  | (_, r, out) => (out, r)
+
+/-! ## the session's idle timers (`TimeoutContainer`s of `TcpSession`), virtual time -/
+
+/-- `container_frontend_timeout` / `container_backend_timeout` once the backend is
+    connected: their current deadlines -/
+structure Timers where
+  frontDur : Nat
+  backDur : Nat
+  frontDeadline : Nat
+  backDeadline : Nat
+  deriving DecidableEq, Repr
+
+/-- bytes crossed a socket (what the session's `readable` / `back_readable` see) -/
+inductive TAct where
+  /-- `TcpSession::readable`: resets the front timer, and the back timer when connected -/
+  | clientBytes
+  /-- `TcpSession::back_readable`: resets both -/
+  | backendBytes
+  /-- `writable` / `back_writable` alone: no timer is touched -/
+  | writeOnly
+  deriving DecidableEq, Repr
+
+def Timers.start (fd bd now : Nat) : Timers :=
+  { frontDur := fd, backDur := bd, frontDeadline := now + fd, backDeadline := now + bd }
+
+def Timers.fires (t : Timers) (now : Nat) : Bool := decide (t.frontDeadline ≤ now) || decide (t.backDeadline ≤ now)
+
+def Timers.act (t : Timers) (now : Nat) : TAct → Timers
+  | .clientBytes => { t with frontDeadline := now + t.frontDur, backDeadline := now + t.backDur }
+  | .backendBytes => { t with frontDeadline := now + t.frontDur, backDeadline := now + t.backDur }
+  | .writeOnly => t
+
+/-- run a timeline of `(time, activity)`; `some T` = the timer closed the session at time `T`
+    (the earlier of the two deadlines), before the activity that came too late -/
+def Timers.run (t : Timers) : List (Nat × TAct) → Option Nat
+  | [] => none
+  | (now, a) :: rest =>
+    if t.fires now then some (min t.frontDeadline t.backDeadline)
+    else (t.act now a).run rest
+
+/-- both timers were (re-)armed at time `last` -/
+def Timers.ArmedAt (t : Timers) (last : Nat) : Prop :=
+  t.frontDeadline = last + t.frontDur ∧ t.backDeadline = last + t.backDur
+
+/-- every activity of the timeline comes less than `m` after the previous *byte* activity -/
+def paced (m : Nat) : Nat → List (Nat × TAct) → Prop
+  | _, [] => True
+  | last, (now, a) :: rest => now < last + m ∧ paced m (if a = .writeOnly then last else now) rest
 
 end Sozu.Pipe
